@@ -7,7 +7,8 @@ Binding A: every configuration is materialised, read with read_namespace, and di
 reachable composite (identity of the file each nested type came from), or error class / path / line are compared.
 """
 from __future__ import annotations
-from .. import reader_replay as rr
+from .. import reader_replay as rr, session_replay
+from . import c02
 
 def _focus(b):
     return b["kind"] != "print-path"
@@ -19,7 +20,10 @@ def run(ctx):
                 "diamonds, cycles, several versions, duplicates across directories and - a second file with the legacy suffix or a port-ID "
                 "prefix - inside one directory); each is materialised and read; the "
                 "identity (file) of every nested type reached through any referrer is compared with the specification's "
-                "resolution, errors by class, path and line. Non-trivial = at least two definitions and one reference")
+                "resolution, errors by class, path and line. Sessions.tla: every history of two (thorough: three, sampled) calls over three "
+                "entry points x six variants of one namespace (same type names and versions, other layout / constant / deprecation "
+                "/ a fault) x files rewritten in place or kept in a directory per variant, each history in a process of its own: "
+                "every call observes exactly what it observes alone. Non-trivial = at least two definitions and one reference")
     ctx.assumptions = ["TLC's evaluation of the specification", "target order is the sorted order read_namespace uses; "
                        "read_files orders are covered by C10", "for a letter-case mismatch the error's path is not compared"]
     ctx.note("a reference that differs from an existing definition only by letter case is reported with the path of the "
@@ -36,6 +40,9 @@ def run(ctx):
         rr.run_cfg(ctx, "Reader_ns3.cfg", "namespace", sample_mod=12, focus=_focus)
         rr.run_cfg(ctx, "Reader_ns3_twin.cfg", "namespace", sample_mod=3, focus=_focus)
         ctx.exhaustive = False
+    # histories of calls in one process (Sessions.tla): every call observes what the same call observes alone
+    c02.run_cfg(ctx, "Sessions", "Sessions_quick.cfg" if ctx.tier == "quick" else "Sessions_thorough.cfg", session_replay.worker, "sess",
+                mk=lambda blocks: [(b, 6) for b in blocks])
     ctx.sample({"defs": ["d1/a/X.0.1: a.Y.0.1 f1", "d1/a/Y.0.1: b.X.0.1 f1; a.X.0.1 f2 (cycle)", "d2/b/X.0.1"],
                 "expected": "UndefinedDataTypeError at d1/a/Y.0.1:2"})
 
